@@ -1288,3 +1288,222 @@ class MPSGateWithSubMPO(Rec):
         d["cur_orthog-at-the-end-the-sweep-stops"] = isinstance(co, tuple) and len(co) == 2 and And(co[0] == end, co[1] == end)
         d["region-joined-back"] = by["ior"][1] is psi and by["ior"][2] is p.ret
         return d
+
+
+# ------------------------------------------------------------------------------------------------------------
+# tensor_network_ag_gate_simple: 1 site | 2 neighbouring sites (gauged) | 2 disconnected sites (long range) | > 2 tensors
+# ------------------------------------------------------------------------------------------------------------
+@register
+class AGGateSimple(Rec):
+    """tensor_network_ag_gate_simple: on every route the caller's G, the sites in the given order and BOTH flags dagger and
+    transpose reach the gate leaf unchanged.  One tensor: tensor_network_ag_gate(tn, G, where, contract=True, dagger,
+    transpose, inplace=True), no gauges touched.  Two disconnected tensors: the long-range routine gets every option.
+    Two bonded tensors: the two tensors are selected, the gauges are inserted around them (caller's gauges, smudge, power,
+    outer only) BEFORE and the gate call lies INSIDE that with-block (removal on exit), the gate gets max_bond / cutoff /
+    info and the gate options (absorb=None, contract='reduce-split' unless given), the new bond gauge reported by the
+    split is stored under the bond label, normalised iff renorm, nothing else in gauges changes.  More than two tensors:
+    NotImplementedError before anything is applied.  Result: the working network (copy iff not inplace)"""
+
+    target = f"{TAG}::tensor_network_ag_gate_simple"
+    floor = 300
+
+    def cases(self):
+        out = []
+        for wk, routes in (("single", ("1",)), ("tuple1", ("1",)), ("tuple2", ("1", "2nn", "2lr", "3+")), ("list2", ("2nn", "2lr"))):
+            for route in routes:
+                for ip in (False, True):
+                    for opts in ("none", "given"):
+                        for renorm in (True, False):
+                            for info in ("none", "dict"):
+                                if route != "2nn" and (renorm is False or info == "dict") and route != "2lr":
+                                    continue
+                                out.append(NS(name=f"where={wk},route={route},inplace={ip},gate_opts={opts},renorm={renorm},"
+                                                   f"info={info}", wk=wk, route=route, inplace=ip, opts=opts, renorm=renorm,
+                                              info=info))
+        return out
+
+    def inputs(self, cx, case):
+        s0, s1 = Tok("s0"), Tok("s1")
+        where = {"single": s0, "tuple1": (s0,), "tuple2": (s0, s1), "list2": [s0, s1]}[case.wk]
+        if case.route == "3+":
+            n = cx.Int("ntids")
+            cx.assume(n >= 3)
+            tids = WSeq("tids", n=n)
+        else:
+            tids = tuple(Tok(f"tid{k}") for k in range(1 if case.route == "1" else 2))
+        tn = Tok("self", is_tn=True, tids=tids, bonded=case.route == "2nn")
+        go = {"propagate_tags": Tok("propagate_tags")}
+        if case.opts == "given":
+            go.update(absorb=Tok("absorb"), contract=Tok("contract"))
+        tn.old_gauge = Tok("old-gauge")  # snapshot of the entry content of the (mutable) gauges dict
+        return dict(self=tn, G=Tok("G"), where=where, gauges={"old-bond": tn.old_gauge}, dagger=Tok("dagger"),
+                    transpose=Tok("transpose"), max_bond=Tok("max_bond"), cutoff=Tok("cutoff"), renorm=case.renorm,
+                    smudge=Tok("smudge"), power=Tok("power"), path=Tok("path"), info=None if case.info == "none" else {},
+                    inplace=case.inplace, gate_opts=go)
+
+    def attr(self, cx, base, attr, node):
+        if isinstance(base, Tok) and getattr(base, "is_tn", False) and attr == "site_tag":
+            return ("bound", base, "tag")
+        if isinstance(base, Tok) and getattr(base, "is_tn", False) and attr == "tensor_map":
+            return Tok("tensor_map", of=base)
+        return super().attr(cx, base, attr, node)
+
+    def call(self, cx, name, args, kwargs, node):
+        if name == "__isinstance__" and args[1].replace(" ", "") in ("(tuple,list)", "(list,tuple)"):
+            return isinstance(args[0], (tuple, list))
+        if name == "warnings.warn":
+            return None
+        if name == "map" and isinstance(args[0], tuple) and args[0][0] == "bound" and isinstance(args[1], (tuple, list)):
+            return tuple(Lbl(args[0][2], s) for s in args[1])
+        if name == "__getitem__" and isinstance(args[0], Tok) and args[0].name == "tensor_map":
+            return Tok("tensor", tid=args[1], net=args[0].of)
+        if name == "do" and args and args[0] == "linalg.norm":
+            return Tok("norm", of=args[1])
+        if name == "__binop__" and args[0] == "Div" and isinstance(args[1], Tok) and isinstance(args[2], Tok):
+            return Tok("quot", num=args[1], den=args[2])
+        return super().call(cx, name, args, kwargs, node)
+
+    def leaf(self, cx, name, recv, args, kwargs, node):
+        if recv is None and name == "tensor_network_ag_gate":
+            info = kwargs.get("info")
+            if isinstance(info, dict) and not info and kwargs.get("contract") is not True:
+                # the split leaf reports the new singular values under (kind, bond label)
+                info[("singular_values", Tok("new-bond"))] = Tok("s-new")
+            e = self.record(cx, "ag_gate", None, args, kwargs, args[0] if args else None)
+            cx.events[-1][2].line = node.lineno
+            cx.events[-1][2].info_snapshot = dict(info) if isinstance(info, dict) else None
+            return e
+        if recv is None and name == "tensor_network_ag_gate_simple_long_range":
+            return self.record(cx, "long_range", None, args, kwargs, args[0] if args else None)
+        if recv is None:
+            return NotImplemented
+        if name == "copy" and getattr(recv, "is_tn", False) and not hasattr(recv, "copy_of"):
+            return Tok("copy", is_tn=True, tids=recv.tids, bonded=recv.bonded, copy_of=recv)
+        if name == "_get_tids_from_tags" and getattr(recv, "is_tn", False):
+            self.record(cx, "tids", recv, args, kwargs, recv.tids)
+            return recv.tids
+        if name == "bonds" and recv.name == "tensor" and args and getattr(args[0], "name", "") == "tensor":
+            self.record(cx, "bonds", recv, args, kwargs, None)
+            return ("bond",) if recv.net.bonded else ()
+        if name == "_select_tids" and getattr(recv, "is_tn", False):
+            return self.record(cx, "select", recv, args, kwargs, Tok("tn_where", is_tn=True, tids=args[0], bonded=True, sel_of=recv))
+        if name == "gauge_simple_temp":
+            r = self.record(cx, "gauge_temp", recv, args, kwargs, Tok("gauge-context"))
+            cx.events[-1][2].line = node.lineno
+            return r
+        return NotImplemented
+
+    def ensures_raise(self, a, exc, cx, case):
+        applied = [e for e in cx.events if e[0] == "call" and e[1] in ("ag_gate", "long_range", "gauge_temp")]
+        return {"raises-only-for-more-than-two-tensors": exc == "NotImplementedError" and case.route == "3+",
+                "nothing-applied-before-rejecting": not applied,
+                "gauges-untouched-when-rejecting": list(a.gauges.items()) == [("old-bond", a.self.old_gauge)]}
+
+    def ensures(self, a, r, cx, case):
+        import ast
+        from vf.pyvc import load_function
+        if case.route == "3+":
+            return {"more-than-two-tensors-must-raise": False}
+        cs = {n: self.calls(cx, n) for n in ("tids", "bonds", "select", "gauge_temp", "ag_gate", "long_range")}
+        d = {"tensors-looked-up-once": len(cs["tids"]) == 1}
+        if not d["tensors-looked-up-once"]:
+            return d
+        t = cs["tids"][0][2]
+        work = t.recv
+        d["works-on-receiver-iff-inplace"] = (work is a.self) if case.inplace else (getattr(work, "copy_of", None) is a.self)
+        d["returns-the-working-network"] = r is work
+        sites = (a.where,) if case.wk == "single" else tuple(a.where)
+        d["tensors-of-the-site-tags-of-the-sites-any"] = len(t.args) == 2 and same(t.args[0], tuple(Lbl("tag", s) for s in sites)) \
+            and same(t.args[1], "any")
+        old_gauge = [("old-bond", a.self.old_gauge)]
+
+        def where_ok(w):
+            if case.wk == "single":
+                return isinstance(w, tuple) and len(w) == 1 and w[0] is a.where
+            return w is a.where
+
+        if case.route == "1":
+            d["one-site:exactly-one-gate-no-gauging"] = len(cs["ag_gate"]) == 1 and not cs["long_range"] and not cs["gauge_temp"]
+            if not d["one-site:exactly-one-gate-no-gauging"]:
+                return d
+            c = cs["ag_gate"][0][2]
+            kw = dict(c.kw)
+            d["one-site:on-the-working-network"] = len(c.args) == 1 and c.args[0] is work
+            d["one-site:gate-array-passed-on"] = kw.pop("G", None) is a.G
+            d["one-site:sites-in-the-given-order"] = where_ok(kw.pop("where", None))
+            d["one-site:contracted-into-the-tensor"] = kw.pop("contract", None) is True
+            d["one-site:dagger-passed-on"] = kw.pop("dagger", None) is a.dagger
+            d["one-site:transpose-passed-on"] = kw.pop("transpose", None) is a.transpose
+            d["one-site:in-place-on-the-working-network"] = kw.pop("inplace", None) is True
+            d["one-site:no-other-option-invented"] = not kw
+            d["one-site:gauges-untouched"] = same(list(a.gauges.items()), old_gauge)
+            return d
+        d["two-sites:connectivity-of-the-two-tensors-tested"] = len(cs["bonds"]) == 1 and \
+            {cs["bonds"][0][2].recv.tid, cs["bonds"][0][2].args[0].tid} == set(work.tids) and cs["bonds"][0][2].recv.net is work
+        if case.route == "2lr":
+            d["long-range:exactly-one-long-range-gate-nothing-else"] = len(cs["long_range"]) == 1 and not cs["ag_gate"] and \
+                not cs["gauge_temp"]
+            if not d["long-range:exactly-one-long-range-gate-nothing-else"]:
+                return d
+            c = cs["long_range"][0][2]
+            kw = dict(c.kw)
+            d["long-range:on-the-working-network"] = len(c.args) == 1 and c.args[0] is work
+            d["long-range:gate-array-passed-on"] = kw.pop("G", None) is a.G
+            d["long-range:sites-in-the-given-order"] = where_ok(kw.pop("where", None))
+            d["long-range:gauges-passed-on"] = kw.pop("gauges", None) is a.gauges
+            for k in ("dagger", "transpose", "max_bond", "cutoff", "smudge", "power", "path"):
+                d[f"long-range:{k}-passed-on"] = kw.pop(k, None) is a[k]
+            d["long-range:renorm-passed-on"] = kw.pop("renorm", None) is case.renorm
+            d["long-range:info-passed-on"] = kw.pop("info", "missing") is cx.old.info
+            d["long-range:in-place-on-the-working-network"] = kw.pop("inplace", None) is True
+            d["long-range:gate-options-passed-on"] = all(kw.pop(k, None) is v for k, v in cx.old.gate_opts.items())
+            d["long-range:no-other-option-invented"] = not kw
+            return d
+        # two bonded tensors
+        order = [e[1] for e in cx.events if e[0] == "call" and e[1] in ("select", "gauge_temp", "ag_gate", "long_range")]
+        d["nn:select-then-gauge-then-gate"] = order == ["select", "gauge_temp", "ag_gate"]
+        if not d["nn:select-then-gauge-then-gate"]:
+            return d
+        sel, gt, c = cs["select"][0][2], cs["gauge_temp"][0][2], cs["ag_gate"][0][2]
+        d["nn:the-two-tensors-are-selected-from-the-working-network"] = sel.recv is work and len(sel.args) == 1 and sel.args[0] is work.tids
+        d["nn:gauges-inserted-around-the-selection"] = gt.recv is sel.ret and len(gt.args) == 1 and gt.args[0] is a.gauges
+        d["nn:smudge-passed-on"] = gt.kw.get("smudge") is a.smudge
+        d["nn:power-passed-on"] = gt.kw.get("power") is a.power
+        d["nn:inner-bond-gauge-kept-in-(tracked-through-the-split)"] = gt.kw.get("ungauge_inner") is False and \
+            set(gt.kw) == {"smudge", "power", "ungauge_inner"}
+        # lexical bracket: the gate call lies inside the with-block whose context expression is the gauge insertion
+        fn = load_function(self.target)[0]
+        withs = [w for w in ast.walk(fn) if isinstance(w, ast.With) and
+                 w.items[0].context_expr.lineno <= gt.line <= w.items[0].context_expr.end_lineno]
+        d["nn:gate-applied-inside-the-gauge-bracket"] = len(withs) == 1 and \
+            withs[0].body[0].lineno <= c.line <= withs[0].end_lineno
+        kw = dict(c.kw)
+        d["nn:gate-on-the-gauged-selection"] = len(c.args) == 1 and c.args[0] is sel.ret
+        d["nn:gate-array-passed-on"] = kw.pop("G", None) is a.G
+        d["nn:sites-in-the-given-order"] = where_ok(kw.pop("where", None))
+        d["nn:dagger-passed-on"] = kw.pop("dagger", None) is a.dagger
+        d["nn:transpose-passed-on"] = kw.pop("transpose", None) is a.transpose
+        d["nn:max_bond-passed-on"] = kw.pop("max_bond", None) is a.max_bond
+        d["nn:cutoff-passed-on"] = kw.pop("cutoff", None) is a.cutoff
+        d["nn:in-place-on-the-selection"] = kw.pop("inplace", None) is True
+        info = kw.pop("info", None)
+        d["nn:info-is-the-caller's-dict-else-a-new-one"] = isinstance(info, dict) and (case.info == "none" or info is cx.old.info)
+        go = cx.old.gate_opts
+        d["nn:absorb-None-unless-given"] = (kw.pop("absorb", "missing") is go["absorb"]) if case.opts == "given" else \
+            (kw.pop("absorb", "missing") is None)
+        d["nn:contract-reduce-split-unless-given"] = (kw.pop("contract", None) is go["contract"]) if case.opts == "given" else \
+            same(kw.pop("contract", None), "reduce-split")
+        d["nn:other-gate-options-passed-on"] = kw.pop("propagate_tags", None) is go["propagate_tags"]
+        d["nn:no-other-option-invented"] = not kw
+        rep = list((c.info_snapshot or {}).items())
+        d["nn:split-reported-one-bond-gauge"] = len(rep) == 1
+        if len(rep) == 1:
+            (_, ix), s = rep[0]
+            new = [(k, v) for k, v in a.gauges.items() if not (k == "old-bond" and v is a.self.old_gauge)]
+            d["nn:only-the-gated-bond's-gauge-changes"] = all(a.gauges.get(k) is v for k, v in old_gauge) and \
+                len(a.gauges) == len(old_gauge) + 1 and len(new) == 1 and new[0][0] is ix
+            if len(new) == 1:
+                g = new[0][1]
+                d["nn:new-gauge-is-the-split's-singular-values-normalised-iff-renorm"] = \
+                    (getattr(g, "num", None) is s and getattr(getattr(g, "den", None), "of", None) is s) if case.renorm else g is s
+        return d
